@@ -135,17 +135,32 @@ func (x *ctx) checkAdapters(ids []int64) *vk.Failure {
 				if we != nil && fknown && rknown && !same(we.Weight(), want) {
 					return x.failf("undirectweighted-edge-weight", "WeightedEdgeBetween(%d,%d).Weight()=%v, merge of (%v,%v) is %v", u, v, we.Weight(), fw, rw, want)
 				}
+				// Weight: "If x and y are the same node the internal node weight
+				// is returned. If there is no joining edge between the two nodes
+				// the weight value returned is zero. Weight returns true if an
+				// edge exists between x and y or if x and y have the same ID".
 				gw, gok := uw.Weight(u, v)
-				if gok != (fok || rok) {
-					return x.failf("undirectweighted-weight-ok", "Weight(%d,%d) = (%v,%v), model ok=%v", u, v, gw, gok, fok || rok)
+				dw, dok, dknown := want, fok || rok, fknown && rknown
+				switch {
+				case u == v:
+					dw, dok, dknown = m.weight(u, u) // what G.Weight(x, x) answers
+				case !dok:
+					dw, dknown = 0, true
 				}
-				// Without an edge the documentation says zero while Absent is
-				// what is merged; the value is only compared when ok.
-				if gok && fknown && rknown && !same(gw, want) {
-					return x.failf("undirectweighted-weight", "Weight(%d,%d) = %v, merge of (%v,%v) is %v", u, v, gw, fw, rw, want)
+				if gok != dok {
+					return x.failf("undirectweighted-weight-ok", "Weight(%d,%d) = (%v,%v), model ok=%v", u, v, gw, gok, dok)
 				}
-				if !gok {
-					x.classes["undirectweighted-weight-without-edge-not-compared"]++
+				if dknown && !same(gw, dw) {
+					switch merged := fknown && rknown && same(gw, want); {
+					case merged && u == v && dok:
+						x.softf("undirectweighted-weight-self-is-merged",
+							"UndirectWeighted.Weight(%d,%d) = %v: Merge applied to (%v,%v); documented: the internal node weight %v", u, v, gw, fw, rw, dw)
+					case merged && !dok:
+						x.softf("undirectweighted-weight-without-edge-not-zero",
+							"UndirectWeighted.Weight(%d,%d) = (%v,false) without a joining edge: Merge applied to Absent (%v,%v); documented: zero", u, v, gw, fw, rw)
+					default:
+						return x.failf("undirectweighted-weight", "Weight(%d,%d) = (%v,%v), documented value %v (directed weights %v, %v)", u, v, gw, gok, dw, fw, rw)
+					}
 				}
 			}
 		}
